@@ -21,12 +21,12 @@ claimed={
          "ideal AEAD; peer address <= 8 bytes; payloads <= 4 KiB in the continuation step"),
  "C03": ("Handshake decided piecewise on the real code: negotiateSecurity+handleClientAuthentication / handleServerAuthentication (arbitrary parsed peer configuration, arbitrary bitmask replies, nondeterministic method outcome), negotiateSecurity+setupStreamEncryption (arbitrary peer levels, cipher lists, key presence, either ECDH outcome), and glue harnesses showing performFullAuthentication / ServerHandshakeWithMessage run the three steps once, in order, on the returned negotiation.", "5.C03",
          "method bodies, ECDH and HKDF replaced by nondeterministic stubs through overlay seams (same stubs natively in replay); message layer replaced by typed item queues; <= 2 methods per list, <= 2 retry rounds"),
- "C06": ("handleSessionResumption over a cache of 1-2 arbitrary sessions (+ global-cache fallback) and an arbitrary request; resumeSession with an arbitrary cached entry and arbitrary reply; one arbitrary cache operation followed by every lookup (dead sessions unreachable by every route).", "5.C06",
-         "ids <= 4 bytes; clock readings within one minute of each other; expiry either >= 1 s in the past or >= 1 h ahead; replay of a recorded resumed connection (two connections) not yet covered"),
+ "C06": ("handleSessionResumption over a cache of 1-2 arbitrary sessions (+ global-cache fallback) and an arbitrary request; resumeSession with an arbitrary cached entry and arbitrary reply; one arbitrary cache operation followed by every lookup (dead sessions unreachable by every route); a protected frame recorded on one resumed connection against a fresh server stream of the same session with an arbitrary reply.", "5.C06",
+         "ids <= 4 bytes; clock readings within one minute of each other; expiry either >= 1 s in the past or >= 1 h ahead; replay of a recorded resumed connection decided in two halves (stream-side acceptance when the cleartext transcripts repeat; handshake-side fixed reply), reported as KNOWN-FINDING"),
  "C07": ("A session filed by the real storeClientSession under (tag, server, valid commands) and a later ClientHandshake with arbitrary (tag', server', command') on the same cache: it rides the session iff all three match; failed resumption and invalidation drop every route (shared with C06 harnesses).", "5.C07",
          "tags <= 3 bytes and addresses <= 4 bytes without ',' '{' '}' (the Sprintf key is not injective otherwise); exact decimal rendering for |n| < 10^18"),
- "C10": ("Real negotiateSecurity against an independently written decision table over all level pairs and method / cipher lists of length 0-2 (authentication half and encryption half).", "5.C10",
-         "two-party agreement (both endpoints report the same outcome) and the retry loop are not yet covered"),
+ "C10": ("Real negotiateSecurity against an independently written decision table over all level pairs and method / cipher lists of length 0-2 (authentication half and encryption half); two honest endpoints through the real negotiate / publish / parse / negotiate / key-setup chain agree on both outcomes and the key; the server retry loop round by round.", "5.C10",
+         "two-party agreement covers the negotiation decision, the published answer and key setup (symmetric key-agreement stub); the two retry loops are checked one side at a time against arbitrary peers, not in lock-step"),
  "C05": ("Real ServeConn with one raw and four authenticated handlers of differing per-command policy, arbitrary first command, arbitrary handshake result (stubbed through a seam), an authorizer that answers arbitrarily on every call, up to two follow-up commands: each handler runs for its own command, on an open connection, via the right path, on a session meeting that command's policy now and authorized by a grant obtained for that dispatch; refusals close the connection.", "5.C05",
          "the handshake result is arbitrary (its truthfulness is C03's subject); <= 3 commands per connection"),
  "C08": ("The decoder's literal shortcut against reference recognisers of the ClassAd lexer's literal tokens for every value text <= 6 bytes; the parsing, raw-text and skipping receivers over the same wire images (count 0-2, 0-4 strings incl. the secret marker, both framings).", "5.C08",
